@@ -36,6 +36,39 @@ EDGE_OPS = {
 PRIMITIVES = set(EDGE_OPS)
 
 
+def dealias(fn_node):
+    """a copy of the function in which a local that is bound exactly once, to a plain field `self.<f>`, and never rebound is
+    replaced by that field (`children = self.downstreams; children.add(child)` reads `self.downstreams.add(child)`)"""
+    import copy
+    binds = {}
+    for n in ast.walk(fn_node):
+        if isinstance(n, (ast.Assign, ast.AugAssign, ast.AnnAssign, ast.For, ast.AsyncFor, ast.With, ast.NamedExpr)) or isinstance(n, ast.comprehension):
+            tgs = n.targets if isinstance(n, ast.Assign) else ([n.target] if hasattr(n, 'target') else [])
+            if isinstance(n, ast.With):
+                tgs = [i.optional_vars for i in n.items if i.optional_vars is not None]
+            for t in tgs:
+                for x in ast.walk(t):
+                    if isinstance(x, ast.Name):
+                        binds.setdefault(x.id, []).append(n)
+    alias = {}
+    for nm, lst in binds.items():
+        if len(lst) == 1 and isinstance(lst[0], ast.Assign) and len(lst[0].targets) == 1 and isinstance(lst[0].targets[0], ast.Name):
+            v = lst[0].value
+            if isinstance(v, ast.Attribute) and isinstance(v.value, ast.Name) and v.value.id == 'self':
+                alias[nm] = v
+    params = {a.arg for a in fn_node.args.posonlyargs + fn_node.args.args + fn_node.args.kwonlyargs}
+    alias = {k: v for k, v in alias.items() if k not in params}
+    if not alias:
+        return fn_node
+
+    class T(ast.NodeTransformer):
+        def visit_Name(self, n):
+            if isinstance(n.ctx, ast.Load) and n.id in alias:
+                return ast.copy_location(copy.deepcopy(alias[n.id]), n)
+            return n
+    return T().visit(copy.deepcopy(fn_node))
+
+
 def _edge_ops(fn):
     """(kind, end, receiver src, arg src, node, parent block id) for every edge operation in fn"""
     out = []
@@ -399,7 +432,7 @@ def check_weak_and_sinks(ctx, R):
          ctx.where(bad[0], bad[1].lineno) if bad else None)
     rm = stream.methods.get('_add_downstream')
     ok = rm is not None and any(isinstance(n, ast.Call) and isinstance(n.func, ast.Attribute) and n.func.attr == 'add'
-                                and self_field(n.func.value) == 'downstreams' for n in own_nodes(rm.node))
+                                and self_field(n.func.value) == 'downstreams' for n in own_nodes(dealias(rm.node)))
     R.ob('WEAK-DOWN', 'streamz.core.Stream._add_downstream', 'adds', ok, '_add_downstream does not add to self.downstreams',
          ctx.where(rm, rm.node.lineno) if rm else None)
     # ---- STRONG-SINK
@@ -805,7 +838,7 @@ def check_hooks_only(ctx, R, modules=('streamz.core', 'streamz.sinks', 'streamz.
         if fn.module.name not in modules:
             continue
         sites = []
-        for n in own_nodes(fn.node):
+        for n in own_nodes(dealias(fn.node)):
             if isinstance(n, ast.Call) and isinstance(n.func, ast.Attribute) and isinstance(n.func.value, ast.Attribute) \
                     and n.func.value.attr in MUT and n.func.attr in MUT[n.func.value.attr]:
                 sites.append((n, '%s.%s()' % (n.func.value.attr, n.func.attr)))
